@@ -38,6 +38,6 @@ def jobs(tier):
     for n, es in (((0, 8), (7, 8), (8, 8), (113, 8), (112, 9), (110, 14), (4, 16), (3, 99)) if tier == 'quick' else ((0, 8), (1, 8), (7, 8), (8, 8), (105, 8), (106, 8), (113, 8), (211, 8), (106, 9), (112, 9), (212, 9), (107, 14), (110, 14), (4, 16), (109, 24), (5, 77), (107, 77), (3, 78), (3, 99), (107, 99))):
         out.append(dict(name='fmt_char_n%d_e%d' % (n, es), src='h_eclfmt.cpp', defs={'NELEM': n, 'ELSZ': es}, entry='h_fmt_char', tus=TUS, fp='real', loopmax=40000, maxsteps=20000000, partial_sites=(n == 0),
                         bounds='n=%d strings of element size %d; characters of the first two and the last strings symbolic' % (n, es)))
-    out.append(dict(name='fmt_doub_real', src='h_eclfmt.cpp', defs={'NELEM': 0}, entry='h_fmt_doub', tus=TUS, fp='ieee', loopmax=40000, maxsteps=20000000, bounds='18 concrete doubles and 11 concrete floats reaching every branch of the mantissa/exponent surgery (snprintf/strtod exact on concrete values)'))
+    out.append(dict(name='fmt_doub_real', src='h_eclfmt.cpp', defs={'NELEM': 0}, entry='h_fmt_doub', tus=TUS, fp='ieee', loopmax=40000, maxsteps=20000000, bounds='21 concrete doubles (incl. DBL_MIN, the smallest subnormal, DBL_MAX) and 11 concrete floats reaching every branch of the mantissa/exponent surgery (snprintf/strtod exact on concrete values)'))
     out.append(dict(name='bin_mess', src='h_eclbin.cpp', defs={'NELEM': 0}, entry='h_mess', tus=TUS, fp='real', loopmax=2000))
     return out
